@@ -535,6 +535,7 @@ func (rc *RunCtx) processEvents() {
 	}
 	var cands []cand
 	seenLabel := map[string]int{}
+	collisionNotes := map[string]int{}
 	for _, r := range rc.Results {
 		if r.Err != "" {
 			rc.Infra = append(rc.Infra, fmt.Sprintf("job %s: engine error: %s", r.Job.Name(), r.Err))
@@ -553,6 +554,15 @@ func (rc *RunCtx) processEvents() {
 					continue
 				}
 				k := ev.Kind + ":" + ev.Label
+				if ev.Detail == "needs-collision" {
+					// every model of this counterexample needs two different strings with equal hashes:
+					// it cannot be replayed against the real hash; noted, not replayed
+					if collisionNotes[k] == 0 {
+						rc.Notes = append(rc.Notes, fmt.Sprintf("abstract counterexample that needs a hash collision (not replayable against the real hash; outside the claim): %s %q in job %s", ev.Kind, ev.Label, r.Job.Name()))
+					}
+					collisionNotes[k]++
+					continue
+				}
 				if seenLabel[k] >= 2 {
 					continue
 				}
@@ -617,7 +627,7 @@ func (rc *RunCtx) processEvents() {
 			if rc.Spec.ContractStubs != "" {
 				rc.Notes = append(rc.Notes, "counterexample under a contract stub not reproduced natively ("+rc.Spec.ContractStubs+"): "+desc)
 			} else if rc.Spec.AbstractHash {
-				rc.Notes = append(rc.Notes, "abstract counterexample not reproduced natively (it needs a hash collision that the real hash function may not have; outside the claim): "+desc)
+				rc.Notes = append(rc.Notes, "abstract counterexample not reproduced natively (it needs a hash collision that the real hash function may not have; outside the claim): "+desc+" :: "+extractRules(o.ro.output)+fmt.Sprint(o.c.ev.Model))
 			} else {
 				rc.Infra = append(rc.Infra, "counterexample did not reproduce natively (encoder or stub mismatch): "+desc)
 			}
